@@ -492,7 +492,7 @@ BINOPS = ('*', '/', '%', '+', '-', '<<', '>>', '<', '>', '<=', '>=', '==', '!=',
 UNOPS = ('+', '-', '~', '!')
 
 # known-defect trigger conditions (a case that met one is attributed to that family if it fails)
-TRIGGERS = ('logical', 'to-bool', 'int-to-float32', 'f-suffix', 'float-cond', 'neg-fraction-to-unsigned')
+TRIGGERS = ('logical', 'to-bool', 'int-to-float32', 'f-suffix', 'float-cond', 'neg-fraction-to-unsigned', 'cond-narrow')
 
 
 class Res(namedtuple('Res', 'type value')):
@@ -678,7 +678,10 @@ def evaluate(e, tgt, trig=None):
         sel = truth(c.value)
         if trig is not None and is_float(c.type):
             trig.add('float-cond')
-        t = usual_arith(type_of(e[2], tgt), type_of(e[3], tgt), tgt)     # constraints of both operands
+        ta, tb = type_of(e[2], tgt), type_of(e[3], tgt)
+        t = usual_arith(ta, tb, tgt)                                     # constraints of both operands
+        if trig is not None and ta == tb and is_integer(ta) and promote(ta, tgt) != ta:
+            trig.add('cond-narrow')
         s = evaluate(e[2] if sel else e[3], tgt, trig)                   # only the selected one is evaluated
         return Res(t, convert(s.value, s.type, t, tgt, trig))
     raise ValueError('unknown AST node %r' % (k,))
@@ -753,7 +756,7 @@ def render(e, tgt):
     if k in ('ilit', 'flit'):
         return e[1]
     if k in ('econst', 'raw'):
-        return e[1]
+        return e[1] if e[1].replace('_', 'a').isalnum() else '(%s)' % e[1]
     if k == 'sizeof':
         return 'sizeof(%s)' % cname(e[1])
     if k == 'alignof':
